@@ -7,6 +7,7 @@
            mutant   the input was a damaged-but-accepted file,
            member   [k |-> "none"] or the archive member this result was made from [k |-> "member", archseg, dirs, stem, exts]:
                     the path the accessors must reflect is then <archive path>!/<member name> (Iface!MemberPath),
+           members  <<>> or, for an archive with several members, the member of the 1st, 2nd, ... result,
            dcwrapper  EPUB whose dc elements sit in an OEB 1.x <dc-metadata> wrapper (domain of KF-C04-01)]
      ev   one event per accessor call with the projected return:
           Text     get_full_text / unit.get_text / image.get_content_type|caption|description   [cls, utf8]
@@ -41,7 +42,8 @@ TraceTable  == IsEvent("Table")  /\ DimOK(Ev)
 TraceJson   == IsEvent("Json")   /\ Ev.cls = "dict"
 TraceFileMeta ==
     /\ IsEvent("FileMeta")
-    /\ Acceptable(path, [fnk |-> Ev.fnk, fn |-> Ev.fn, extk |-> Ev.extk, ext |-> Ev.ext,
+    /\ Acceptable(IF Hdr.members # <<>> THEN EffectivePath(Hdr.path, Hdr.members[Ev.ri]) ELSE path,   \* ri: which result
+                  [fnk |-> Ev.fnk, fn |-> Ev.fn, extk |-> Ev.extk, ext |-> Ev.ext,
                          dir |-> Ev.dir, fdir |-> Ev.fdir, fpn |-> Ev.fpn])
     /\ (Hdr.fmt \in DOMAIN MetaTypeOf => Ev.mtype = MetaTypeOf[Hdr.fmt])
     /\ Ev.strsutf8 = TRUE              \* every string the metadata object carries is well-formed Unicode
